@@ -101,14 +101,19 @@ func prop(c harness.Case) harness.Result {
 	if s := c.S["names"]; s != "" {
 		specs = append(specs, s)
 	}
-	for _, soft := range []cm.SoftBreakBehavior{cm.SoftBreakPreserve, cm.SoftBreakHarden} {
+	for _, cfg := range []struct {
+		soft   cm.SoftBreakBehavior
+		ignore bool
+	}{{cm.SoftBreakPreserve, false}, {cm.SoftBreakHarden, false}, {cm.SoftBreakSpace, true}} {
+		// (with IgnoreRaw the predicate still governs the tags the renderer generates)
+		soft := cfg.soft
 		var pb bytes.Buffer
-		(&cm.HTMLRenderer{ReferenceMap: refs, SoftBreakBehavior: soft}).Render(&pb, blocks)
+		(&cm.HTMLRenderer{ReferenceMap: refs, SoftBreakBehavior: soft, IgnoreRaw: cfg.ignore}).Render(&pb, blocks)
 		plain := pb.String()
 		for _, spec := range specs {
 			libF, rej := predicate(spec)
 			var fb bytes.Buffer
-			(&cm.HTMLRenderer{ReferenceMap: refs, SoftBreakBehavior: soft, FilterTag: libF}).Render(&fb, blocks)
+			(&cm.HTMLRenderer{ReferenceMap: refs, SoftBreakBehavior: soft, IgnoreRaw: cfg.ignore, FilterTag: libF}).Render(&fb, blocks)
 			filtered := fb.String()
 			if err := align(plain, filtered); err != nil {
 				res.Err = fmt.Errorf("predicate %s: %v\n unfiltered: %q\n filtered:   %q", spec, err, plain, filtered)
